@@ -202,6 +202,25 @@ impl<'a> Bfs<'a> {
                     if !root.outside_intact(off, len) {
                         return Err("bytes outside the accessor's range changed".into());
                     }
+                    // the accessor as the destination of copies from sources that are longer than
+                    // it is and whose element size does not divide its length: still nothing
+                    // outside its range may change
+                    {
+                        let mut foreign = [0x5au8; 64];
+                        // SAFETY: foreign outlives the slices built on it
+                        let fsl = unsafe { VolatileSlice::new(foreign.as_mut_ptr(), 64) };
+                        fsl.copy_to_volatile_slice(s.clone());
+                        fsl.get_array_ref::<u16>(0, 9).map_err(|e| format!("{:?}", e))?.copy_to_volatile_slice(s.clone());
+                        fsl.get_array_ref::<u32>(0, 5).map_err(|e| format!("{:?}", e))?.copy_to_volatile_slice(s.clone());
+                        fsl.get_array_ref::<u64>(0, 3).map_err(|e| format!("{:?}", e))?.copy_to_volatile_slice(s.clone());
+                        fsl.get_array_ref::<[u8; 3]>(1, 7).map_err(|e| format!("{:?}", e))?.copy_to_volatile_slice(s.clone());
+                        s.copy_from(&[0x5a5a_5a5au32; 6]);
+                        s.copy_from(&[0x5a5a_5a5a_5a5a_5a5au64; 4]);
+                        s.copy_from(&[[0x5au8; 3]; 9]);
+                        if !root.outside_intact(off, len) {
+                            return Err("a copy into the accessor from a longer source changed bytes outside its range".into());
+                        }
+                    }
                     let g = s.ptr_guard_mut();
                     if g.as_ptr() as usize != root.ptr() as usize + off || g.len() != len {
                         return Err("ptr_guard_mut does not designate the accessor's range".into());
@@ -736,7 +755,7 @@ fn region_roots(ctx: &Ctx) {
 pub fn run(tier: Tier, replay: Option<String>) -> i32 {
     let ctx = crate::new_ctx("C01", tier, "model_checking", &replay);
     let thorough = tier.thorough();
-    ctx.set_rule("E1 to an empty frontier: state = (accessor kind, element type, start offset relative to the root, extent); from every reachable VolatileSlice: subslice/get_slice/compute_end_offset for every (offset, count) in (0..=L+1 + values around isize::MAX/usize::MAX + pointer-overflowing values)^2, offset/split_at for every such value, get_ref / aligned_as_ref / aligned_as_mut / get_array_ref (every count 0..=L/size+1 + overflowing counts) for 13 element types of 0..16 bytes (incl. zero-sized types of alignment 1, 2, 8 and 16, whose references must still be aligned), get_atomic_ref for all 10 AtomicInteger types; from references: to_slice; from arrays: to_slice and ref_at for every index incl. out of range. Every transition runs on the real API and is compared with an interval model (accepted iff offset+count does not overflow and fits the immediate parent; child exactly [parent+o, +c); typed/atomic references only at aligned addresses). Every new state is exercised: fill through the accessor, read back, only its own range may change inside a canary window placed before a PROT_NONE guard page. Roots: VolatileSlice of N bytes at every address mod 8 plus one ending at the guard page; MmapRegion (anonymous and file-backed) of 1, 5, 4096, 4097 bytes through the region, guest-region and guest-memory API; ByteValued::from_slice/from_mut_slice for all lengths 0..=17 x misalignments x types.");
+    ctx.set_rule("E1 to an empty frontier: state = (accessor kind, element type, start offset relative to the root, extent); from every reachable VolatileSlice: subslice/get_slice/compute_end_offset for every (offset, count) in (0..=L+1 + values around isize::MAX/usize::MAX + pointer-overflowing values)^2, offset/split_at for every such value, get_ref / aligned_as_ref / aligned_as_mut / get_array_ref (every count 0..=L/size+1 + overflowing counts) for 13 element types of 0..16 bytes (incl. zero-sized types of alignment 1, 2, 8 and 16, whose references must still be aligned), get_atomic_ref for all 10 AtomicInteger types; from references: to_slice; from arrays: to_slice and ref_at for every index incl. out of range. Every transition runs on the real API and is compared with an interval model (accepted iff offset+count does not overflow and fits the immediate parent; child exactly [parent+o, +c); typed/atomic references only at aligned addresses). Every new state is exercised: fill through the accessor, read back, copy into it from longer sources of 1/2/3/4/8-byte elements, only its own range may change inside a canary window placed before a PROT_NONE guard page. Roots: VolatileSlice of N bytes at every address mod 8 plus one ending at the guard page; MmapRegion (anonymous and file-backed) of 1, 5, 4096, 4097 bytes through the region, guest-region and guest-memory API; ByteValued::from_slice/from_mut_slice for all lengths 0..=17 x misalignments x types.");
     ctx.assume("accessor structs are Copy records of exactly (address, extent, bitmap, mmap handle): two chains reaching the same (kind, type, offset, extent) have the same futures, so merging them is sound");
     if ctx.replay_of.is_some() {
         println!("replay: the search is deterministic; re-running it and reporting whether the recorded key fails again");
